@@ -535,12 +535,12 @@ class DFXPWriter(BaseWriter):
 
             if styles:
                 if self.open_span:
-                    line = line.rstrip() + '</span> '
+                    line = line + '</span>'
                 line += f'<span{styles}>'
                 self.open_span = True
 
         elif self.open_span:
-            line = line.rstrip() + '</span> '
+            line = line + '</span>'
             self.open_span = False
 
         return line
